@@ -724,6 +724,14 @@ impl Serialize for Filter {
                 }
             }
         }
+        if let Some((verb_mstp_mtin, mask)) = &self.verb_mstp_mtin {
+            // from_json derives the mask from the key used (mstp) or the mtin value
+            if *mask == (0x07u8 << 1) {
+                state.serialize_field("mstp", &((verb_mstp_mtin >> 1) & 0x07u8))?;
+            } else {
+                state.serialize_field("verb_mstp_mtin", verb_mstp_mtin)?;
+            }
+        }
         if let Some(s) = &self.payload_regex {
             if self.ignore_case_payload {
                 let s = s.as_str().replacen("(?i)", "", 1);
